@@ -33,6 +33,14 @@ Enc(m, tag) ==
    <<Ref("Pick", <<TypeLit(m), UnionT(<<LitT("str", "a"), LitT("str", "m"), LitT("str", "foo-bar")>>)>>), <<>>>>,
    <<Ref("Omit", <<TypeLit(m), LitT("str", "a")>>), <<>>>>,
    <<Ref("Omit", <<Ref("I" \o tag, <<>>), Ref("K" \o tag, <<>>)>>), <<Interface("I" \o tag, <<>>, m), Alias("K" \o tag, UnionT(<<LitT("str", "b"), LitT("str", "g")>>))>>>>}
+  \cup {<<InterT(<<TypeLit(<<Prop("a", "ident", FALSE, Num)>>), Ref("Omit", <<TypeLit(m), LitT("str", "a")>>)>>), <<>>>>,        \* an earlier sibling declares the omitted key
+        <<InterT(<<TypeLit(<<Prop("z", "ident", FALSE, Num)>>), Ref("Pick", <<TypeLit(m), LitT("str", "a")>>)>>), <<>>>>,
+        <<InterT(<<TypeLit(<<Prop("r", "ident", FALSE, Num)>>), Ref("Partial", <<TypeLit(m)>>)>>), <<>>>>,
+        <<InterT(<<Ref("Partial", <<TypeLit(m)>>), TypeLit(<<Prop("r", "ident", FALSE, Num)>>)>>), <<>>>>,
+        <<Ref("Partial", <<InterT(<<TypeLit(<<Prop("b", "ident", FALSE, Num)>>), Ref("Omit", <<Ref("I" \o tag, <<>>), LitT("str", "b")>>)>>)>>),
+          <<Interface("I" \o tag, <<>>, m)>>>>}
+  \cup {<<Ref("I" \o tag, <<>>), <<Alias("A" \o tag, TypeLit(p[1])), Interface("I" \o tag, <<"A" \o tag>>, p[2])>>>> : p \in Parts(m)}     \* interface extends an object-type alias
+  \cup {<<Ref("I" \o tag, <<>>), <<Alias("A" \o tag, TypeLit(p[1])), Interface("M" \o tag, <<"A" \o tag>>, <<>>), Interface("I" \o tag, <<"M" \o tag>>, p[2])>>>> : p \in Parts(m)}
   \cup {<<Ref("I" \o tag, <<>>), <<Interface("I" \o tag, <<>>, p[1]), Interface("I" \o tag, <<>>, p[2])>>>> : p \in Parts(m)}
   \cup {<<Ref("I" \o tag, <<>>), <<Interface("B" \o tag, <<>>, p[1]), Interface("I" \o tag, <<"B" \o tag>>, p[2])>>>> : p \in Parts(m)}
   \cup {<<InterT(<<TypeLit(p[1]), Ref("T" \o tag, <<>>)>>), <<Alias("T" \o tag, TypeLit(p[2]))>>>> : p \in Parts(m)}
